@@ -5,7 +5,7 @@
 From Coq Require Import List String Ascii NArith Bool.
 Import ListNotations.
 From GMQ Require Import Base.Bytes Codec.Desc Codec.Prim Codec.Value Codec.MethodCodec Codec.Header Codec.Frame Codec.Records Codec.SpecCheck Codec.Grammar Codec.Codec.
-From GMQ Require Import Codec.gen.MethodsGen Codec.gen.TagsGen Codec.gen.ConstGen Codec.gen.SpecGen.
+From GMQ Require Import Codec.gen.MethodsGen Codec.gen.TagsGen Codec.gen.ConstGen Codec.gen.SpecGen Codec.gen.RecordsGen.
 Open Scope N_scope.
 
 (* ---- hex strings ---- *)
@@ -25,8 +25,8 @@ Fixpoint H (s : string) : bytes :=
 Definition mkH (c w s : N) (ps : list (option mval)) : header :=
   {| h_class := c; h_weight := w; h_body_size := s; h_props := ps |}.
 Definition mkF (t c : N) (p : bytes) : frame := {| f_type := t; f_channel := c; f_payload := p |}.
-Definition mkMsg (i : N) (h : header) (ex rk : bytes) (b : list frame) : message :=
-  {| msg_id := i; msg_header := h; msg_exchange := ex; msg_rk := rk; msg_body := b |}.
+Definition mkMsg (i : N) (h : header) (ex rk : bytes) (b : list frame) (c : N) : message :=
+  {| msg_id := i; msg_header := h; msg_exchange := ex; msg_rk := rk; msg_body := b; msg_count := c |}.
 Definition mkQ (n : bytes) (a : bool) : queue_rec := {| q_name := n; q_autodelete := a |}.
 Definition mkE (n : bytes) (t : N) : exchange_rec := {| ex_name := n; ex_type := t |}.
 Definition mkB (q e k : bytes) (a : table) (t : bool) : binding_rec :=
@@ -67,7 +67,7 @@ Definition canon_cval (c : cval) : cval :=
   | CT t => CT (canon_table t)
   | CM n vs => CM n (map canon_mval vs)
   | CH h => CH (canon_header h)
-  | CMsg m => CMsg (mkMsg (msg_id m) (canon_header (msg_header m)) (msg_exchange m) (msg_rk m) (msg_body m))
+  | CMsg m => CMsg (mkMsg (msg_id m) (canon_header (msg_header m)) (msg_exchange m) (msg_rk m) (msg_body m) (msg_count m))
   | CB b => CB (mkB (b_queue b) (b_exchange b) (b_rk b) (canon_table (b_args b)) (b_topic b))
   | o => o
   end.
@@ -121,7 +121,7 @@ Definition cval_eqb (a b : cval) : bool :=
   | CF x, CF y => frame_eqb x y
   | CMsg x, CMsg y =>
     (msg_id x =? msg_id y) && header_eqb (msg_header x) (msg_header y) && bytes_eqb (msg_exchange x) (msg_exchange y) &&
-    bytes_eqb (msg_rk x) (msg_rk y) && list_eqb frame_eqb (msg_body x) (msg_body y)
+    bytes_eqb (msg_rk x) (msg_rk y) && list_eqb frame_eqb (msg_body x) (msg_body y) && (msg_count x =? msg_count y)
   | CQ x, CQ y => bytes_eqb (q_name x) (q_name y) && Bool.eqb (q_autodelete x) (q_autodelete y)
   | CE x, CE y => bytes_eqb (ex_name x) (ex_name y) && (ex_type x =? ex_type y)
   | CB x, CB y =>
@@ -165,7 +165,7 @@ Section Instance.
                         | Err => Err | Panic => Panic | Alloc n => Alloc n | Fuel => Fuel end)
     | KdHeader => lift CH (dec_header longstr_alloc (t_rd T) d (t_pf T) (t_pr T) bs)
     | KdFrame => lift CF (decode_frame bs)
-    | KdMessage => lift CMsg (dec_message longstr_alloc frame_alloc c_FrameEnd (t_rd T) d (t_pf T) (t_pr T) bs)
+    | KdMessage => lift CMsg (dec_message longstr_alloc frame_alloc c_FrameEnd (t_rd T) d (t_pf T) (t_pr T) message_trailer_read bs)
     | KdQueue => lift CQ (dec_queue bs)
     | KdExchange => lift CE (dec_exchange bs)
     | KdBinding => lift CB (dec_binding longstr_alloc (t_rd T) d bs)
@@ -179,7 +179,7 @@ Section Instance.
     | CM n vs => match find_method (t_methods T) n with Some m => enc_method_frame (t_wr T) d m vs | None => None end
     | CH h => enc_header (t_wr T) d (t_pf T) (t_pw T) h
     | CF f => Some (encode_frame f)
-    | CMsg m => enc_message c_FrameEnd (t_wr T) d (t_pf T) (t_pw T) m
+    | CMsg m => enc_message c_FrameEnd (t_wr T) d (t_pf T) (t_pw T) message_trailer_written m
     | CQ q => Some (enc_queue q)
     | CE e => Some (enc_exchange e)
     | CB b => enc_binding (t_wr T) d b
